@@ -261,6 +261,12 @@ func runRobust(c robustCase, cfgs []cfgRec) (o robustObs) {
 					_, err := env.Expand(w, m)
 					return err
 				})
+				// no positional parameters at all
+				o.guard(fmt.Sprintf("Expand mode %d, no parameters", m), func() error {
+					env := interp.NewExecEnv("sh")
+					_, err := env.Expand(w, m)
+					return err
+				})
 				// values and IFS that are not valid UTF-8, multi-byte and empty
 				o.guard(fmt.Sprintf("Expand mode %d, odd environment", m), func() error {
 					env := interp.NewExecEnv("sh", "p\xff1", "", "\u00e9")
